@@ -29,7 +29,7 @@ def write_replay(prop, failure, witness, verifier_output):
     doc = {'property': prop, 'obligation': failure['obligation'], 'engine': failure['engine'], 'kind': failure.get('kind'),
            'message': failure.get('message'), 'clause': failure.get('clause'),
            'input': (witness or {}).get('input'), 'observed': (witness or {}).get('observed'), 'expected': (witness or {}).get('expected'),
-           'replay_kind': (witness or {}).get('kind'),
+           'replay_kind': (witness or {}).get('kind'), 'expr': (witness or {}).get('expr'), 'binds': (witness or {}).get('binds'),
            'verifier_output': verifier_output[-6000:] if verifier_output else '', 'written': time.strftime('%Y-%m-%dT%H:%M:%S')}
     if not doc['input']:
         doc['note'] = 'no-failing-input-found: the verifier refuted the obligation but gave no model and the witness search found no input'
